@@ -121,3 +121,80 @@ def source_facts():
     if rc != 0:
         raise BuildError("rs2v facts (the extractor could not process the source)", out)
     return os.path.join(COQ, "Gen", "SourceFacts.v")
+
+
+GEN_SOURCES = ["fixed-buffer/src/lib.rs", "fixed-buffer/src/deframe_line.rs", "fixed-buffer/src/deframe_crlf.rs",
+               "fixed-buffer/src/deframe_null.rs", "fixed-buffer/src/escape_ascii.rs", "fixed-buffer/src/read_write_chain.rs",
+               "fixed-buffer/src/read_write_take.rs", "fixed-buffer-tokio/src/lib.rs", "fixed-buffer-tokio/src/async_read_write_chain.rs",
+               "fixed-buffer-tokio/src/async_read_write_take.rs"]
+
+
+def gen_models():
+    """tie T1 for behaviour: re-translate the modelled functions of /repo's working tree into coq/Gen/*Gen.v
+    (rs2v ast -> vlib/translate.py).  A definition Coq rejects is commented out (with everything that then no longer
+    compiles), so that one untranslatable function breaks exactly the equalities that depend on it.
+    Returns {file: [(function, status, detail)]}."""
+    from . import translate_fb
+    exe = rs2v()
+    os.makedirs(os.path.join(BUILD, "tmp"), exist_ok=True)
+    astp = os.path.join(BUILD, "tmp", "ast.json")
+    srcs = [os.path.join(REPO, p) for p in GEN_SOURCES if os.path.exists(os.path.join(REPO, p))]
+    rc, out = sh([exe, "ast", astp] + srcs)
+    if rc != 0:
+        raise BuildError("rs2v ast (the source does not parse)", out)
+    gdir = os.path.join(COQ, "Gen")
+    os.makedirs(gdir, exist_ok=True)
+    report = translate_fb.main(astp, gdir)
+    coq_makefile()
+    for name in report:
+        path = os.path.join(gdir, name + ".v")
+        for _ in range(40):
+            rc, out = sh(["make", "Gen/%s.vo" % name], cwd=COQ)
+            if rc == 0:
+                break
+            m = re.search(r'File "\./Gen/%s\.v", line (\d+)' % name, out)
+            if not m:
+                raise BuildError("make Gen/%s.vo" % name, out)
+            ln = int(m.group(1))
+            lines = open(path).read().split("\n")
+            # the Definition that contains line ln
+            start = max(i for i in range(ln) if lines[i].startswith("Definition "))
+            end = next(i for i in range(start, len(lines)) if lines[i].rstrip().endswith(".") and (i + 1 == len(lines) or lines[i + 1].strip() == ""))
+            fn = lines[start].split()[1]
+            err = " ".join(out.split("Error:")[-1].split())[:300].replace("*)", "* )")
+            lines[start:end + 1] = ["(* %s: REJECTED BY COQ (%s) *)" % (fn, err)]
+            open(path, "w").write("\n".join(lines))
+            report[name] = [((f, "ill-typed", err) if st == "translated" and (d == fn or d + "_body" == fn) else (f, st, d))
+                            for (f, st, d) in report[name]]
+    json.dump(report, open(os.path.join(BUILD, "tmp", "gen_report.json"), "w"), indent=1)
+    return report
+
+
+def gen_eq(names):
+    """make the equalities GenEq/<name>.vo (keep going); returns {name: None | error text}"""
+    if not names:
+        return {}
+    coq_makefile()
+    targets = ["GenEq/%s.vo" % n for n in names]
+    rc, out = sh(["timeout", "1200", "make", "-k", "-j16"] + targets, cwd=COQ)
+    res = {}
+    for n in names:
+        vo = os.path.join(COQ, "GenEq", n + ".vo")
+        bad = re.search(r"\*\*\* \[[^\]]*GenEq/%s\.vo\]" % re.escape(n), out) is not None or not os.path.exists(vo)
+        if not bad and rc != 0:
+            # a dependency failed: the target was not remade
+            src = open(os.path.join(COQ, "GenEq", n + ".v")).read()
+            g = re.search(r"Require Gen\.(\w+)", src)
+            gvo = os.path.join(COQ, "Gen", g.group(1) + ".vo") if g else None
+            bad = gvo is None or not os.path.exists(gvo) or os.path.getmtime(gvo) > os.path.getmtime(vo)
+        if bad:
+            for ext in ("o", "ok", "os"):
+                try:
+                    os.remove(vo[:-1] + ext)      # no stale .vo of a broken equality
+                except FileNotFoundError:
+                    pass
+            m = re.search(r'File "\./GenEq/%s\.v"[^\n]*\n((?:.*\n){0,12})' % re.escape(n), out)
+            res[n] = (m.group(1) if m else out[-1500:]).strip()[:1500]
+        else:
+            res[n] = None
+    return res
